@@ -202,6 +202,16 @@ def memoRunShared {ι κ ν : Type} [DecidableEq κ] (f : ι → κ → ν) :
       let b := memoRunShared f a.2 qs
       (a.1 :: b.1, b.2)
 
+/-- The functions of the package that are memoised with `functools.lru_cache` / `functools.cache` and for which T5 is
+instantiated (pure in the arguments the cache compares; results not configured afterwards): stropping of a token,
+loading a language module + class by name, the text wrapper for three scalars.  Any other memoised function needs its own
+argument — e.g. a memoised FACTORY of a configurable object (`LanguageContextBuilder._new_language_w_experimental_handling`)
+hands the object of an earlier `create()` to a later one. -/
+def modelledMemoised : List String :=
+  [ "nunavut/lang/_common.py:TokenEncoder.strop",
+    "nunavut/lang/_language.py:LanguageClassLoader.load_language_class",
+    "nunavut/lang/cpp/__init__.py:_make_textwrap" ]
+
 /-- A cache whose keys are compared through `π` although the function looks at the whole argument: `functools.lru_cache`
 on a function of a PyDSDL model object — composite types compare and hash equal by name, version and bit length set
 (`π`), the function (`DependencyBuilder(for_type)`) keeps the object with its attributes.  `Language.get_dependency_builder`
